@@ -55,3 +55,10 @@ def _nt_swallow(pid, v):
 def _union_pack_tuple(pid, v):
     facts = (v["case"].get("facts") or {})
     return pid == "C11" and v["clause"] == "union-encode-neq" and facts.get("earlier_fixed_tuple_reproduces") is True
+
+
+@scope("F-KWFLAG-MASKS-CALL-DIALECT")
+def _kwflag(pid, v):
+    facts = (v["case"].get("facts") or {})
+    return pid == "C08" and v["clause"] == "project-neq" and v["outcome"] == "ok" and \
+        facts.get("kwflag_default_masks_call_dialect") is True
